@@ -509,3 +509,44 @@ pub fn first_diff(a: &[u8], b: &[u8]) -> Option<usize> {
         None
     }
 }
+
+
+/// A chunk of exactly `n` bytes whose compressed form (with bitar's own compressor, the one the
+/// writers use) is also exactly `n` bytes: the corner of the "store raw iff not smaller" rule.
+/// None when the search does not hit the size exactly.
+pub fn equal_size_chunk(n: usize, comp: Comp, seed: u64) -> Option<Vec<u8>> {
+    let c = comp.to_bitar()?;
+    let clen = |data: &[u8]| -> usize { bitar::Chunk::from(data.to_vec()).compress(Some(c)).map(|x| x.len()).unwrap_or(usize::MAX) };
+    let mut rng = Rng::new(seed);
+    for _attempt in 0..3 {
+        let mut base = vec![0u8; n];
+        rng.fill(&mut base);
+        let make = |z: usize| -> Vec<u8> {
+            // the last z bytes become a short repeating pattern
+            let mut v = base.clone();
+            for i in (n - z)..n {
+                v[i] = b"ab"[i % 2];
+            }
+            v
+        };
+        if clen(&make(0)) < n || clen(&make(n)) > n {
+            continue;
+        }
+        let (mut lo, mut hi) = (0usize, n);
+        while lo < hi {
+            let mid = (lo + hi) / 2;
+            if clen(&make(mid)) > n {
+                lo = mid + 1;
+            } else {
+                hi = mid;
+            }
+        }
+        for z in lo.saturating_sub(6)..=(lo + 6).min(n) {
+            let v = make(z);
+            if clen(&v) == n {
+                return Some(v);
+            }
+        }
+    }
+    None
+}
